@@ -138,6 +138,134 @@ Section Model.
        castem_combine eps2 (q_u1 st) (q_u2 st) u1 (q_r1 st) (q_r2 st) r u1
      else u1).
 
+  (* ---------------------------------------------------------------- the Delta2 / 2Delta variants
+     state = previous G-value u, previous difference of G-values du, previous rho (= -rx), previous difference of rho.
+     rx = x_n - G(x_n) is the second argument of execute; thr = (100*eeps*epsilon)^2; thr99 = the double 0.99. *)
+  Record st5 := { d_u : vec; d_du : vec; d_r : vec; d_dr : vec }.
+  Definition st5_init (n : nat) : st5 := {| d_u := zeros n; d_du := zeros n; d_r := zeros n; d_dr := zeros n |}.
+  (* `(a*a)/(b*c) < 0.99` of the C++: a NaN (0/0) compares false *)
+  Definition ratio_lt (num den thr99 : T) : bool := if feqb F den f0 then false else (num / den) <? thr99.
+
+  (* AlternateDelta2AccelerationAlgorithm::execute *)
+  Definition altdelta2_step (trigger : nat) (thr : T) (st : st5) (iter : nat) (u1 rx : vec) : st5 * vec :=
+    let r1 := vopp rx in
+    let du1 := vsub u1 (d_u st) in
+    let d2u := vsub du1 (d_du st) in
+    let dr1 := vsub r1 (d_r st) in
+    let d2r := vsub dr1 (d_dr st) in
+    ({| d_u := u1; d_du := du1; d_r := r1; d_dr := dr1 |},
+     if (trigger <=? iter)%nat then
+       if (iter =? 2)%nat then
+         let n2 := dot dr1 dr1 in
+         if thr <? n2 then vsub u1 (vscal (dot dr1 r1 / n2) du1) else u1
+       else
+         let n2 := dot d2r d2r in
+         if thr <? n2 then vsub u1 (vscal (dot d2r r1 / n2) d2u) else u1
+     else u1).
+
+  (* Alternate2DeltaAccelerationAlgorithm::execute *)
+  Definition alt2delta_step (trigger : nat) (thr thr99 : T) (st : st5) (iter : nat) (u1 rx : vec) : st5 * vec :=
+    let r1 := vopp rx in
+    let du1 := vsub u1 (d_u st) in
+    let dr1 := vsub r1 (d_r st) in
+    let du0 := d_du st in
+    let dr0 := d_dr st in
+    ({| d_u := u1; d_du := du1; d_r := r1; d_dr := dr1 |},
+     if (trigger <=? iter)%nat then
+       let n1 := dot dr1 dr1 in
+       if (iter =? 2)%nat then
+         if thr <? n1 then vsub u1 (vscal (dot dr1 r1 / n1) du1) else u1
+       else
+         let n0 := dot dr0 dr0 in
+         let d10 := dot dr1 dr0 in
+         let det := n1 * n0 - d10 * d10 in
+         if ratio_lt (d10 * d10) (n1 * n0) thr99 then
+           let b1 := dot dr1 r1 in
+           let b2 := dot dr0 r1 in
+           let l1 := (n0 * b1 - d10 * b2) / det in
+           let l2 := (n1 * b2 - d10 * b1) / det in
+           vsub u1 (vadd (vscal l1 du1) (vscal l2 du0))
+         else if thr <? n1 then vsub u1 (vscal (dot dr1 r1 / n1) du1) else u1
+     else u1).
+
+  (* CrossedDelta2AccelerationAlgorithm::execute (d_du is not used by this algorithm: kept at its previous value) *)
+  Definition crosseddelta2_step (trigger : nat) (thr : T) (st : st5) (iter : nat) (u1 rx : vec) : st5 * vec :=
+    let r1 := vopp rx in
+    let du := vsub u1 (d_u st) in
+    let dr1 := vsub r1 (d_r st) in
+    let d2r := vsub dr1 (d_dr st) in
+    ({| d_u := u1; d_du := du; d_r := r1; d_dr := dr1 |},
+     if (trigger <=? iter)%nat then
+       if (iter =? 2)%nat then
+         let n2 := dot dr1 dr1 in
+         if thr <? n2 then vsub u1 (vscal (dot du dr1 / n2) r1) else u1
+       else
+         let n2 := dot d2r d2r in
+         if thr <? n2 then vsub u1 (vscal (dot du d2r / n2) dr1) else u1
+     else u1).
+
+  (* Crossed2DeltaAccelerationAlgorithm::execute *)
+  Definition crossed2delta_step (trigger : nat) (thr thr99 : T) (st : st5) (iter : nat) (u1 rx : vec) : st5 * vec :=
+    let r1 := vopp rx in
+    let r0 := d_r st in
+    let du := vsub u1 (d_u st) in
+    let dr1 := vsub r1 r0 in
+    let dr0 := d_dr st in
+    ({| d_u := u1; d_du := du; d_r := r1; d_dr := dr1 |},
+     if (trigger <=? iter)%nat then
+       let n1 := dot dr1 dr1 in
+       if (iter =? 2)%nat then
+         if thr <? n1 then vsub u1 (vscal (dot du dr1 / n1) r1) else u1
+       else
+         let n0 := dot dr0 dr0 in
+         let d10 := dot dr1 dr0 in
+         let det := n1 * n0 - d10 * d10 in
+         if ratio_lt (d10 * d10) (n1 * n0) thr99 then
+           let b1 := dot dr1 du in
+           let b2 := dot dr0 du in
+           let l1 := (n0 * b1 - d10 * b2) / det in
+           let l2 := (n1 * b2 - d10 * b1) / det in
+           vsub u1 (vadd (vscal l1 r1) (vscal l2 r0))
+         else if thr <? n1 then vsub u1 (vscal (dot du dr1 / n1) r1) else u1
+     else u1).
+
+  (* Crossed2DeltabisAccelerationAlgorithm::execute.  State: previous G-value, X_{n-1} (b_x1), X_n (b_x2: the previous output),
+     X_{n-1} - X_{n-2} (b_dx1), X_n - X_{n-1} (b_dx2), previous rho.  At the first iteration of a resolution X_1 = u1 + rx (the unknowns
+     at the beginning of this resolution: repaired code; `first_from_input = false` is the code before the repair, which kept the last
+     iterate of the previous, possibly rejected, resolution). *)
+  Record st6 := { b_u : vec; b_x1 : vec; b_x2 : vec; b_dx1 : vec; b_dx2 : vec; b_r : vec }.
+  Definition st6_init (n : nat) : st6 :=
+    {| b_u := zeros n; b_x1 := zeros n; b_x2 := zeros n; b_dx1 := zeros n; b_dx2 := zeros n; b_r := zeros n |}.
+  Definition crossed2deltabis_step (first_from_input : bool) (trigger : nat) (thr thr99 : T) (st : st6) (iter : nat) (u1 rx : vec)
+    : st6 * vec :=
+    let x1 := if first_from_input && (iter =? 1)%nat then vadd u1 rx else b_x2 st in
+    let x0 := b_x1 st in
+    let dx0 := b_dx1 st in
+    let dx1 := b_dx2 st in
+    let r0 := b_r st in
+    let r1 := vopp rx in
+    let du := vsub u1 (b_u st) in
+    let dr := vsub r1 r0 in
+    let dudx := vsub du dx0 in
+    let out :=
+      if (trigger <=? iter)%nat then
+        let ma := dot dr dr in
+        if (iter =? 2)%nat then
+          if thr <? ma then vsub u1 (vscal (dot du dr / ma) r1) else u1
+        else
+          let mc := dot dudx dudx in
+          let mb := dot dr dudx in
+          let det := ma * mc - mb * mb in
+          if ratio_lt (mb * mb) (ma * mc) thr99 then
+            let b1 := dot dr du in
+            let b2 := dot dudx du in
+            let l1 := (mc * b1 - mb * b2) / det in
+            let l2 := (ma * b2 - mb * b1) / det in
+            vsub u1 (vadd (vscal l1 r1) (vscal l2 (vsub u1 x0)))
+          else if thr <? ma then vsub u1 (vscal (dot du dr / ma) r1) else u1
+      else u1 in
+    ({| b_u := u1; b_x1 := x1; b_x2 := out; b_dx1 := dx1; b_dx2 := vsub out x1; b_r := r1 |}, out).
+
   (* ---------------------------------------------------------------- Anderson (UAnderson / FAnderson + CovarianceMatrix)
      The weights are modelled at the level of their mathematical meaning: w = C^-1 1 / (1^T C^-1 1), C the Gram matrix of the
      stored D fields -- what CovarianceMatrix::weightsGSchmidtD computes when C is non singular.  The rank-deficient path of
@@ -187,6 +315,53 @@ Section Model.
   (* FAndersonAccelerationAlgorithm::execute : D = r *)
   Definition fanderson_step (Nmax alMax : nat) (st : ast) (iter : nat) (u1 r : vec) : option (ast * vec) :=
     anderson_core Nmax alMax st u1 r.
+  (* ---------------------------------------------------------------- Anderson weights as the code computes them:
+     CovarianceMatrix::GSFactorD + weightsGSchmidtD, Gram-Schmidt on the stored D fields in DESCENDING order (newest first),
+     a direction whose squared norm falls below C[0]*eps^2 (C[0] = |oldest field|^2, eps = 100*epsilon) is dropped: the rank-deficient
+     path.  Written on the vectors themselves (the code works on their Gram matrix: same numbers in exact arithmetic):
+       e_i = D_i - sum_{j<i, kept} (<e_j, D_i>/ne_j) e_j ,  t_i = coefficients of e_i on the fields,  ne_i = <e_i, D_i>,
+       rw_i = (sum t_i)/ne_i (0 if dropped),  v = sum_i rw_i t_i,  w = v / sum v. *)
+  Record gsv := { g_e : vec; g_t : vec; g_ne : T }.
+  Fixpoint unitv (n k : nat) : vec :=
+    match n with
+    | O => []
+    | S n' => match k with O => f1 :: zeros n' | S k' => f0 :: unitv n' k' end
+    end.
+  Definition gs_project (D : vec) (acc : vec * vec) (g : gsv) : vec * vec :=
+    if f0 <? g_ne g then
+      let a := dot (g_e g) D / g_ne g in (vsub (fst acc) (vscal a (g_e g)), vsub (snd acc) (vscal a (g_t g)))
+    else acc.
+  Fixpoint gs_build (thr : T) (N : nat) (done : list gsv) (k : nat) (Ds : list vec) : list gsv :=
+    match Ds with
+    | [] => done
+    | D :: rest =>
+      let et := fold_left (gs_project D) done (D, unitv N k) in
+      let ne := dot (fst et) D in
+      let ne' := if ne <? thr then f0 else ne in
+      gs_build thr N (done ++ [{| g_e := fst et; g_t := snd et; g_ne := ne' |}]) (S k) rest
+    end.
+  Definition gs_weights_desc (eps2 : T) (Ds_desc : list vec) : option vec :=
+    let N := length Ds_desc in
+    let c0 := match rev Ds_desc with D0 :: _ => dot D0 D0 | [] => f0 end in
+    let gs := gs_build (c0 * eps2) N [] 0 Ds_desc in
+    let v := fold_left (fun acc g => if f0 <? g_ne g then vadd acc (vscal (vsum (g_t g) / g_ne g) (g_t g)) else acc) gs (zeros N) in
+    normalise v.
+  (* weights in storage order (oldest first) *)
+  Definition anderson_weights_gs (eps2 : T) (Ds : list vec) : option vec :=
+    match gs_weights_desc eps2 (rev Ds) with None => None | Some w => Some (rev w) end.
+  Definition anderson_core_gs (eps2 : T) (Nmax alMax : nat) (st : ast) (u1 D : vec) : option (ast * vec) :=
+    let h := push Nmax (a_hist st) (u1, D) in
+    if (1 <? length h)%nat && (a_alt st =? alMax)%nat then
+      match anderson_weights_gs eps2 (map snd h) with
+      | None => None
+      | Some w => let out := lincomb (length u1) w (map fst h) in Some ({| a_hist := h; a_alt := 1%nat; a_uO := out |}, out)
+      end
+    else Some ({| a_hist := h; a_alt := if (a_alt st <? alMax)%nat then S (a_alt st) else a_alt st; a_uO := u1 |}, u1).
+  Definition uanderson_gs_step (eps2 : T) (Nmax alMax : nat) (st : ast) (iter : nat) (u1 du : vec) : option (ast * vec) :=
+    let xn := if (iter =? 1)%nat then vsub u1 du else a_uO st in
+    anderson_core_gs eps2 Nmax alMax st u1 (vsub xn u1).
+  Definition fanderson_gs_step (eps2 : T) (Nmax alMax : nat) (st : ast) (iter : nat) (u1 r : vec) : option (ast * vec) :=
+    anderson_core_gs eps2 Nmax alMax st u1 r.
 End Model.
 
 (* ---------------------------------------------------------------- instances *)
@@ -221,3 +396,73 @@ Section Run.
       end
     end.
 End Run.
+
+(* scripts that span several resolutions: every entry carries its iteration number (1 = first iteration of a resolution) *)
+Section RunIters.
+  Context {T S I : Type}.
+  Fixpoint run_it (step : S -> nat -> I -> S * list T) (st : S) (script : list (nat * I)) : list (list T) :=
+    match script with
+    | [] => []
+    | (it, x) :: script' => let '(st', out) := step st it x in out :: run_it step st' script'
+    end.
+End RunIters.
+
+(* ---------------------------------------------------------------- Cast3M as the code writes it (square roots): over R only.
+   nr0 = |r1 - r0|, n0 = (r1-r0)/nr0, ntmp1 = (r2-r0).n0, t1' = (r2-r0) - ntmp1 n0, nr1 = |t1'|, n1 = t1'/nr1 *)
+Local Open Scope R_scope.
+Definition castem_combine_sqrt (ca_eps : R) (u0 u1 u2 r0 r1 r2 unew : list R) : list R :=
+  let t0 := vsub RF r1 r0 in
+  let t1 := vsub RF r2 r0 in
+  let nr0 := sqrt (dot RF t0 t0) in
+  if Rlt_dec ca_eps nr0 then
+    let n0 := vscal RF (/ nr0) t0 in
+    let ntmp1 := dot RF t1 n0 in
+    let t1' := vsub RF t1 (vscal RF ntmp1 n0) in
+    let nr1 := sqrt (dot RF t1' t1') in
+    if Rlt_dec (Rabs ntmp1 / 10) nr1 then      (* nr1 > 0.1 * |ntmp1| *)
+      let n1 := vscal RF (/ nr1) t1' in
+      let p0 := (- dot RF r0 n0)%R in
+      let p1 := (- dot RF r0 n1)%R in
+      let c2 := (p1 / nr1)%R in
+      let c1 := ((p0 - ntmp1 * c2) / nr0)%R in
+      vadd RF (vadd RF (vscal RF (1 - c2 - c1) u0) (vscal RF c1 u1)) (vscal RF c2 u2)
+    else
+      let c0 := (- dot RF r0 n0 / nr0)%R in
+      vadd RF (vscal RF (1 - c0) u0) (vscal RF c0 u1)
+  else unew.
+Local Close Scope R_scope.
+
+(* ---------------------------------------------------------------- control flow of GenericSolver::iterate / execute
+   The study is reduced to the verdicts of checkConvergence, consumed in order.  `nopred`: PredictionPolicy::NOPREDICTION
+   (convergence is never accepted at the first iteration). *)
+Fixpoint it_loop (k : nat) (iter : nat) (nopred : bool) (vs : list bool) : bool * nat * list bool :=
+  match k with
+  | O => (true, iter, vs)        (* `while (!converged && iter != iterMax)` left with iter = iterMax: only when iterMax = 0 *)
+  | S k' =>
+    match vs with
+    | [] => (false, S iter, [])  (* script exhausted *)
+    | v :: vs' =>
+      if (if nopred then (1 <? S iter)%nat else true) && v then (true, S iter, vs')
+      else if (k' =? 0)%nat then (false, S iter, vs')           (* `if (iter == o.iterMax) return {false, ...}` *)
+      else it_loop k' (S iter) nopred vs'
+    end
+  end.
+Definition iterate_model (iterMax : nat) (nopred : bool) (vs : list bool) : bool * nat * list bool := it_loop iterMax 0%nat nopred vs.
+
+(* GenericSolver::execute without dynamic time step scaling: events (t, dt, iterations, accepted) and final status
+   (true = end of the time step reached, false = `maximum number of sub stepping reached`) *)
+Fixpoint execute_model (fuel mSub iterMax : nat) (nopred : bool) (sub : nat) (t dt te teps : Q) (vs : list bool)
+  : list (Q * Q * nat * bool) * bool :=
+  match fuel with
+  | O => ([], false)
+  | S f =>
+    let '(acc, n, vs') := iterate_model iterMax nopred vs in
+    if acc then
+      let t' := Qred (t + dt)%Q in
+      if (match Qcompare (Qabs (te - t')%Q) teps with Lt => true | _ => false end) || (match Qcompare te t' with Lt => true | _ => false end)
+      then ([(t, dt, n, true)], true)
+      else let r := execute_model f mSub iterMax nopred sub t' dt te teps vs' in ((t, dt, n, true) :: fst r, snd r)
+    else
+      if (S sub =? mSub)%nat then ([(t, dt, n, false)], false)
+      else let r := execute_model f mSub iterMax nopred (S sub) t (Qred (dt / 2)%Q) te teps vs' in ((t, dt, n, false) :: fst r, snd r)
+  end.
